@@ -54,7 +54,7 @@ def parseCfg (toks : List String) : Option VSt := do
   let realloc := (kv toks "realloc").getD "1" == "1"
   let pool := ((kv toks "pool").bind String.toNat?).getD 3
   let checked := (kv toks "checked").getD "1" == "1"
-  let allocId := if realloc then 0 else 1
+  let allocId := ((kv toks "akind").bind String.toNat?).getD (if realloc then 0 else 1)
   let cfg : Cfg := { flavour := fl, n := n, ops := ops, checked := checked, allocId := allocId }
   -- optional partner configuration (swap2): fl2= n2= st2= realloc2= pool2=
   let pool2 := ((kv toks "pool2").bind String.toNat?).getD 0
@@ -64,7 +64,8 @@ def parseCfg (toks : List String) : Option VSt := do
     let n2 ← (← kv toks "n2").toNat?
     let ops2 ← opsFor fl2 (← kv toks "st2")
     let r2 := (kv toks "realloc2").getD "1" == "1"
-    pure ({ flavour := fl2, n := n2, ops := ops2, allocId := if r2 then 0 else 1 } : Cfg)).getD cfg
+    pure ({ flavour := fl2, n := n2, ops := ops2,
+            allocId := ((kv toks "akind2").bind String.toNat?).getD (if r2 then 0 else 1) } : Cfg)).getD cfg
   pure { cfg := cfg, pool := pool, cfg2 := cfg2, pool2 := pool2, mem := freshMem2 cfg pool cfg2 pool2 cat realloc }
 
 def excName : Exc → String
